@@ -55,40 +55,59 @@ func analyseCtor(p *Program, s *Summarizer, fn *ssa.Function, pkgPath, typeName 
 	return out
 }
 
-// splitByParam splits a conjunction into per-parameter conjunctions. ok=false
-// if some conjunct mixes parameters.
+// splitByParam projects a condition onto each parameter it mentions: in
+// negation normal form every literal about another parameter is replaced by
+// true, which yields a necessary condition on that parameter alone
+// (over-approximation). Propositional atoms are kept.
 func splitByParam(f *Form) (map[int]*Form, bool) {
+	params := map[int]bool{}
+	f.Atoms(func(a *LAtom) {
+		if a.Kind != "prop" {
+			params[a.Term.Param] = true
+		}
+	})
 	out := map[int]*Form{}
-	var conj []*Form
-	var flat func(f *Form)
-	flat = func(f *Form) {
-		if f.Op == "and" {
-			for _, s := range f.Sub {
-				flat(s)
-			}
-			return
-		}
-		conj = append(conj, f)
-	}
-	flat(f)
-	for _, c := range conj {
-		if c.Op == "true" {
-			continue
-		}
-		ps := map[int]bool{}
-		c.Atoms(func(a *LAtom) { ps[a.Term.Param] = true })
-		if len(ps) != 1 {
-			return nil, false
-		}
-		for k := range ps {
-			if out[k] == nil {
-				out[k] = c
-			} else {
-				out[k] = fAnd(out[k], c)
-			}
-		}
+	for k := range params {
+		out[k] = projectForm(f, k, true)
 	}
 	return out, true
+}
+
+func projectForm(f *Form, param int, pos bool) *Form {
+	switch f.Op {
+	case "true", "false":
+		if (f.Op == "true") == pos {
+			return fTrue()
+		}
+		return fFalse()
+	case "unknown":
+		return fTrue()
+	case "not":
+		return projectForm(f.Sub[0], param, !pos)
+	case "atom":
+		if f.Atom.Kind != "prop" && f.Atom.Term.Param != param {
+			return fTrue()
+		}
+		if pos {
+			return f
+		}
+		return fNot(f)
+	case "and", "or":
+		op := f.Op
+		if !pos {
+			if op == "and" {
+				op = "or"
+			} else {
+				op = "and"
+			}
+		}
+		var subs []*Form
+		for _, s := range f.Sub {
+			subs = append(subs, projectForm(s, param, pos))
+		}
+		return &Form{Op: op, Sub: subs}
+	}
+	return fTrue()
 }
 
 // concatLanguage evaluates the language of a concatenation of leaves, given
